@@ -128,6 +128,13 @@ def scenario(ctx, p):
         direction = ctx.choose("direction", ["left_to_right", "right_to_left", "up", None])
         exk = ctx.choose("excl", ["none", "list"]) if p["nex"] == 0 else "list"
         ex = None if exk == "none" else [ctx.int(f"ex{i}") for i in range(p["nex"])]
+        c["badex"] = None
+        if ex and ctx.choose("exkind", ["ints", "non-integer"]) == "non-integer":
+            # a non-integer 'well number' strictly inside the destination interval must be rejected
+            ctx.assume(rng["dst_start"] <= 2)
+            ctx.assume(rng["dst_end"] >= 3)
+            ex[0] = 2.5
+            c["badex"] = 2.5
         md = ctx.choose("multi_disp", [1, 3])
         reuse = ctx.int("diti_reuse")
         c.update(wl=wl, a=a, vol=vol, rng=rng, direction=direction, ex=ex, md=md, reuse=reuse, m=m)
@@ -314,6 +321,9 @@ def judge_well(ctx, p, c, recs):
 
 def judge_reagent(ctx, p, c, recs):
     ctx.reach("reagent:ok")
+    if c.get("badex") is not None:
+        ctx.violate("C09: a non-integer excluded well was accepted", info=repr(recs))
+        return
     if len(recs) != 1:
         ctx.violate(f"C09: reagent_distribution appended {len(recs)} records")
         return
